@@ -64,6 +64,10 @@ pub struct Alphabet {
     pub prune: bool,
     /// richer amount menus
     pub rich_amounts: bool,
+    /// amounts around multiples of the (ceiled) share values: k*ceil(sv) + {-1,0,1}, k in {1,2,7}
+    pub sv_multiples: bool,
+    /// further fixed amounts offered for deposit / withdraw / borrow / repay
+    pub extra_amounts: Vec<u64>,
 }
 
 impl Alphabet {
@@ -89,6 +93,8 @@ impl Alphabet {
             max_price_devs: 1,
             prune: true,
             rich_amounts: false,
+            sv_multiples: false,
+            extra_amounts: vec![],
         }
     }
 }
@@ -152,7 +158,7 @@ impl Model for Hist {
         let al = &self.alpha;
         let s = &st.s;
         let mut v: Vec<Action> = vec![];
-        let one = |b: usize| 10u64.pow(self.w.banks[b].decimals as u32);
+        let one = |b: usize| 10u64.pow((self.w.banks[b].decimals as u32).min(13));
         for &u in &al.users {
             for &b in &al.banks {
                 let (av, lv, has) = self.position(s, u, b);
@@ -193,6 +199,41 @@ impl Model for Hist {
                     if fl > 2 {
                         v.push(Action::Repay { u, b, amt: fl / 2, all: false });
                         v.push(Action::Repay { u, b, amt: fl, all: false });
+                    }
+                }
+                {
+                    // additional amount menus (C03 sweep)
+                    let mut extra: Vec<u64> = al.extra_amounts.clone();
+                    if al.sv_multiples {
+                        if let Some(bank) = world::try_bank(s, &self.w.banks[b].key) {
+                            for sv in [rf::q(bank.asset_share_value), rf::q(bank.liability_share_value)] {
+                                let c = floor_u64(&sv.ceil()).max(1);
+                                for k in [1u64, 2, 7] {
+                                    for d in [-1i64, 0, 1] {
+                                        let x = (k * c) as i64 + d;
+                                        if x > 0 {
+                                            extra.push(x as u64);
+                                        }
+                                    }
+                                }
+                            }
+                        }
+                    }
+                    extra.sort();
+                    extra.dedup();
+                    for &amt in &extra {
+                        if al.deposit && (!al.prune || !has_liab) {
+                            v.push(Action::Deposit { u, b, amt, up_to_limit: None });
+                        }
+                        if al.withdraw && (!al.prune || has_asset) {
+                            v.push(Action::Withdraw { u, b, amt, all: false });
+                        }
+                        if al.borrow && (!al.prune || !has_asset) {
+                            v.push(Action::Borrow { u, b, amt });
+                        }
+                        if al.repay && (!al.prune || has_liab) {
+                            v.push(Action::Repay { u, b, amt, all: false });
+                        }
                     }
                 }
                 if al.close_balance && (!al.prune || has) {
@@ -584,4 +625,246 @@ impl StepOracle for LedgerOracle {
 
 pub fn zero_is_zero() -> bool {
     BigInt::zero().is_zero()
+}
+
+// ------------------------------------------------------------------------------------------------
+// C06(b) — freshness: every handler first accrues the banks it transacts in (differential A/B)
+
+pub struct FreshnessOracle;
+
+fn involved_banks(a: &Action) -> Vec<usize> {
+    match a {
+        Action::Deposit { b, .. } | Action::Withdraw { b, .. } | Action::Borrow { b, .. } | Action::Repay { b, .. } | Action::CloseBalance { b, .. } | Action::Bankruptcy { b, .. } => vec![*b],
+        Action::Liquidate { asset, liab, .. } => vec![*asset, *liab],
+        _ => vec![],
+    }
+}
+
+impl StepOracle for FreshnessOracle {
+    fn name(&self) -> &'static str {
+        "C06b"
+    }
+    fn check(&self, c: &StepCtx, out: &mut Vec<Violation>, tags: &mut Vec<&'static str>) {
+        let banks = involved_banks(c.a);
+        if banks.is_empty() {
+            return;
+        }
+        let now = c.pre.s.now;
+        // only interesting when some involved bank has pending interest
+        let pending: Vec<usize> = banks.iter().cloned().filter(|b| c.pre_nums[*b].op_state != 255 && c.pre_nums[*b].last_update < now && c.pre_nums[*b].l_sh > 0 && c.pre_nums[*b].a_sh > 0).collect();
+        if pending.is_empty() {
+            return;
+        }
+        // path B: explicit accrue of every involved bank, then the same action
+        let mut sb = c.pre.s.clone();
+        let mut changed = false;
+        for b in &banks {
+            let before = sb.accts.get(&c.w.banks[*b].key).cloned();
+            let r = act::apply(c.w, &mut sb, &Action::Accrue { b: *b });
+            if !r.committed {
+                return; // cannot build the reference path (e.g. paused group): not a verdict
+            }
+            if let (Some(x), Some(y)) = (before, sb.accts.get(&c.w.banks[*b].key)) {
+                let (bx, by): (marginfi_type_crate::types::Bank, marginfi_type_crate::types::Bank) = (world::read_pod(&x.data), world::read_pod(&y.data));
+                if bx.asset_share_value != by.asset_share_value || bx.liability_share_value != by.liability_share_value {
+                    changed = true;
+                }
+            }
+        }
+        if changed {
+            tags.push("accrual_mattered");
+        }
+        let rb = act::apply(c.w, &mut sb, c.a);
+        if rb.committed != c.res.committed {
+            tags.push("ab_outcome_differs");
+            out.push(Violation {
+                clause: "C06.fresh_outcome".into(),
+                detail: format!(
+                    "{:?}: without a prior explicit accrual the instruction returned {}, after accruing the involved banks it returned {}",
+                    c.a,
+                    crate::svm::err_name(c.res.code),
+                    crate::svm::err_name(rb.code)
+                ),
+            });
+            return;
+        }
+        if !rb.committed {
+            return;
+        }
+        tags.push("ab_compared");
+        let ka = canon::state_key(c.post, &[]);
+        let kb = canon::state_key(&sb, &[]);
+        if ka != kb {
+            // find the first differing account for the report
+            let mut which = String::new();
+            for (k, a) in c.post.accts.iter() {
+                match sb.accts.get(k) {
+                    Some(b) if canon::acct_digest(a) == canon::acct_digest(b) => {}
+                    _ => {
+                        which = world::label_of(k);
+                        break;
+                    }
+                }
+            }
+            out.push(Violation {
+                clause: "C06.fresh_state".into(),
+                detail: format!("{:?}: the end state differs from the one reached after explicitly accruing the involved banks first (first differing account: {})", c.a, which),
+            });
+        }
+    }
+}
+
+// ------------------------------------------------------------------------------------------------
+// C03 — no free value
+
+pub struct NoFreeValueOracle;
+
+/// (asset value, liability value) of the user's position in bank b, in native units, exact
+fn position_value(w: &World, s: &Store, u: usize, b: usize) -> (rf::Q, rf::Q) {
+    let ak = act::cur_account(w, s, u);
+    let (Some(a), Some(bank)) = (world::try_account(s, &ak), world::try_bank(s, &w.banks[b].key)) else { return (rf::qzero(), rf::qzero()) };
+    for bal in a.lending_account.balances.iter() {
+        if bal.active != 0 && bal.bank_pk == w.banks[b].key {
+            return (rf::q(bal.asset_shares) * rf::q(bank.asset_share_value), rf::q(bal.liability_shares) * rf::q(bank.liability_share_value));
+        }
+    }
+    (rf::qzero(), rf::qzero())
+}
+
+impl StepOracle for NoFreeValueOracle {
+    fn name(&self) -> &'static str {
+        "C03"
+    }
+    fn check(&self, c: &StepCtx, out: &mut Vec<Violation>, tags: &mut Vec<&'static str>) {
+        if !c.res.committed {
+            return;
+        }
+        let (u, b) = match c.a {
+            Action::Deposit { u, b, .. } | Action::Withdraw { u, b, .. } | Action::Borrow { u, b, .. } | Action::Repay { u, b, .. } => (*u, *b),
+            _ => return,
+        };
+        let (pn, qn) = (&c.pre_nums[b], &c.post_nums[b]);
+        if pn.asv != qn.asv || pn.lsv != qn.lsv {
+            // interest accrued inside this step: share values are not constant, outside the statement
+            tags.push("share_values_moved");
+            return;
+        }
+        let bh = &c.w.banks[b];
+        let ta = c.w.users[u].tokens[&bh.mint];
+        let t0 = world::token_amount(&c.pre.s, &ta) as i128;
+        let t1 = world::token_amount(c.post, &ta) as i128;
+        let (a0, l0) = position_value(c.w, &c.pre.s, u, b);
+        let (a1, l1) = position_value(c.w, c.post, u, b);
+        let d_tokens = rf::qi(t1 - t0);
+        let d_pos = (a1.clone() - l1.clone()) - (a0.clone() - l0.clone());
+        let d_w = d_tokens.clone() + d_pos.clone();
+        let allow = rf::ulp() * rf::qi(8) * (rf::qone() + rf::q_raw(qn.asv) + rf::q_raw(qn.lsv));
+        tags.push("wealth_checked");
+        if t1 != t0 {
+            tags.push("tokens_moved");
+        }
+        if d_w.is_negative() && d_w < -rf::qfrac(1, 2) {
+            tags.push("user_lost_rounding");
+        }
+        if d_w > allow {
+            out.push(Violation {
+                clause: "C03.no_gain".into(),
+                detail: format!(
+                    "{:?}: user tokens changed by {} and position value by {:.12} (asset {:.9}->{:.9}, liability {:.9}->{:.9}): net gain {:.12} native units (allowance {:.2e})",
+                    c.a,
+                    t1 - t0,
+                    rf::qf64(&d_pos),
+                    rf::qf64(&a0),
+                    rf::qf64(&a1),
+                    rf::qf64(&l0),
+                    rf::qf64(&l1),
+                    rf::qf64(&d_w),
+                    rf::qf64(&allow)
+                ),
+            });
+        }
+    }
+}
+
+// ------------------------------------------------------------------------------------------------
+// C17 — caps and utilisation
+
+pub struct CapsOracle;
+
+pub const ERR_ASSET_CAPACITY: u64 = 6003;
+
+impl StepOracle for CapsOracle {
+    fn name(&self) -> &'static str {
+        "C17"
+    }
+    fn check(&self, c: &StepCtx, out: &mut Vec<Violation>, tags: &mut Vec<&'static str>) {
+        let b = match c.a {
+            Action::Deposit { b, .. } | Action::Withdraw { b, .. } | Action::Borrow { b, .. } => *b,
+            _ => return,
+        };
+        let bh = &c.w.banks[b];
+        let Some(bank_pre) = world::try_bank(&c.pre.s, &bh.key) else { return };
+        if let Action::Deposit { up_to_limit: Some(true), .. } = c.a {
+            if !c.res.committed && c.res.code == ERR_ASSET_CAPACITY {
+                out.push(Violation {
+                    clause: "C17.up_to_limit_never_capacity_fails".into(),
+                    detail: format!(
+                        "{:?} failed with BankAssetCapacityExceeded (deposit limit {}, deposits before {:.6}, bank last accrued {} s ago)",
+                        c.a,
+                        bank_pre.config.deposit_limit,
+                        rf::qf64(&c.pre_nums[b].deposits()),
+                        c.pre.s.now - c.pre_nums[b].last_update
+                    ),
+                });
+            }
+        }
+        if !c.res.committed {
+            if c.res.code == ERR_ASSET_CAPACITY {
+                tags.push("capacity_rejected");
+            }
+            return;
+        }
+        let Some(bank) = world::try_bank(c.post, &bh.key) else { return };
+        let qn = &c.post_nums[b];
+        match c.a {
+            Action::Deposit { up_to_limit, .. } => {
+                // a clipped-to-zero up-to-limit deposit is a no-op, not a deposit
+                if bank.config.deposit_limit != u64::MAX && qn.a_sh > c.pre_nums[b].a_sh {
+                    tags.push("deposit_cap_checked");
+                    let lim = rf::qu(bank.config.deposit_limit);
+                    if qn.deposits() >= lim {
+                        out.push(Violation {
+                            clause: "C17.deposit_below_limit".into(),
+                            detail: format!("{:?} succeeded and left total deposits {:.9} >= deposit limit {}", c.a, rf::qf64(&qn.deposits()), bank.config.deposit_limit),
+                        });
+                    }
+                    if *up_to_limit == Some(true) && lim.clone() - qn.deposits() < rf::qi(2) {
+                        tags.push("filled_to_limit");
+                    }
+                }
+            }
+            Action::Borrow { .. } => {
+                if bank.config.borrow_limit != u64::MAX {
+                    tags.push("borrow_cap_checked");
+                    if qn.liabs() >= rf::qu(bank.config.borrow_limit) {
+                        out.push(Violation {
+                            clause: "C17.borrow_below_limit".into(),
+                            detail: format!("{:?} succeeded and left total debt {:.9} >= borrow limit {}", c.a, rf::qf64(&qn.liabs()), bank.config.borrow_limit),
+                        });
+                    }
+                }
+            }
+            _ => {}
+        }
+        if matches!(c.a, Action::Withdraw { .. } | Action::Borrow { .. }) {
+            tags.push("utilisation_checked");
+            // the program compares amounts truncated to 2^-48: allow one ulp
+            if qn.deposits() + rf::ulp() < qn.liabs() {
+                out.push(Violation {
+                    clause: "C17.deposits_cover_debt".into(),
+                    detail: format!("{:?} succeeded and left total deposits {:.9} below total debt {:.9}", c.a, rf::qf64(&qn.deposits()), rf::qf64(&qn.liabs())),
+                });
+            }
+        }
+    }
 }
